@@ -265,7 +265,7 @@ pub fn into_iter_script<const N: usize, const P: u32, S: Src>(s: &mut S) {
     cov!(steps > 0 && lo < hi, "owning iterator dropped part-way");
     cov!(lo == hi && len > 0, "owning iterator fully consumed");
     drop(it);
-    if on!(P, C03 | C08) {
+    if on!(P, C03 | C08) && crate::tok::TRACK {
         // yielded elements belong to the caller, the others were destroyed exactly once
         crate::obs::conserve_range::<N>(None, &held, 0, len);
         crate::obs::conserve_flags();
@@ -291,4 +291,57 @@ pub fn iter_default<const N: usize, const P: u32, S: Src>(_s: &mut S) {
     chk!(im.len() == 0, "IterMut::default() has length 0");
     chk!(im.next().is_none(), "IterMut::default().next() is None");
     chk!(im.next_back().is_none(), "IterMut::default().next_back() is None");
+}
+
+/// `Iter` / `IterMut` through `nth`, `nth_back`, `count`, `last` after one ordinary step
+pub fn iter_adaptors<const N: usize, const P: u32, S: Src>(s: &mut S) {
+    let St { mut buf, len, .. } = build::<N, S>(s);
+    let a = s.usize();
+    let b = s.usize();
+    s.assume(a <= b && b <= len);
+    let (mut lo, mut hi) = (a, b);
+    let mutable = s.bool();
+    let pre = s.u8();
+    s.assume(pre < 3);
+    let kind = s.u8();
+    s.assume(kind < 4);
+    let skip = s.usize();
+    s.assume(skip <= 2);
+    cov!(kind == 1 && skip > 0 && skip + 1 < b - a, "nth_back(k) skipping some but not all selected elements");
+    macro_rules! body {
+        ($it:expr) => {{
+            let mut it = $it;
+            if pre == 1 {
+                if it.next().is_some() {
+                    lo += 1;
+                }
+            } else if pre == 2 {
+                if it.next_back().is_some() {
+                    hi -= 1;
+                }
+            }
+            let avail = hi - lo;
+            match kind {
+                0 | 1 => {
+                    let r = if kind == 0 { it.nth(skip).map(|t| t.0) } else { it.nth_back(skip).map(|t| t.0) };
+                    if skip < avail {
+                        let want = if kind == 0 { lo + skip } else { hi - 1 - skip };
+                        chk!(r == Some(want as u8), "nth(k) / nth_back(k) yields the k-th remaining element from that end");
+                        chk!(it.len() == avail - skip - 1, "len() is exact after nth / nth_back");
+                    } else {
+                        chk!(r.is_none(), "nth(k) / nth_back(k) is None when fewer than k+1 elements remain");
+                        chk!(it.len() == 0, "an iterator exhausted by nth / nth_back has length 0");
+                    }
+                }
+                2 => chk!(it.count() == avail, "count() is the number of elements not yet produced"),
+                _ => chk!(it.last().map(|t| t.0) == if avail > 0 { Some((hi - 1) as u8) } else { None }, "last() is the last selected element not yet produced"),
+            }
+        }};
+    }
+    if mutable {
+        body!(buf.range_mut(a..b));
+    } else {
+        body!(buf.range(a..b));
+    }
+    core::mem::forget(buf);
 }
